@@ -507,7 +507,9 @@ pub struct GenOpts {
 }
 
 fn rand_record(rng: &mut Rng, idx: usize, refs: &[RefDesc], rgs: &[String], o: &GenOpts) -> Aln {
-    let name = format!("r{idx}{}", rand_str(rng, NAME_CHARS, 0, 12));
+    // unique within the set (the separator keeps "r52"+"7" apart from "r527"): CRAM attaches records of
+    // one name to each other as mates and recomputes their mate fields
+    let name = format!("r{idx}:{}", rand_str(rng, NAME_CHARS, 0, 12));
     let want_mapped = !refs.is_empty() && o.mapped && (!o.unmapped || rng.chance(3, 4));
     let mut flags: u16 = 0;
     let paired = rng.chance(1, 2);
